@@ -1,4 +1,4 @@
-\* code as it is (FixClose off): digest step inside a compression step, layout source
+\* before the repair (FixClose off): digest step inside a compression step, layout source
 CONSTANTS
  Images <- ImagesData
  Options <- OptsAsisClose
@@ -10,6 +10,7 @@ CONSTANTS
  FixAdded = TRUE
  FixTag = TRUE
  FixClose = FALSE
+ FixDesc = TRUE
  Fine = FALSE
 SPECIFICATION Spec
 INVARIANTS PostTruthful
